@@ -22,10 +22,12 @@ def run(ctx):
               label="operational time nice (tick method + floor/ceil with skip): never inward, < 2 tick steps, on a unit boundary")
     trecs = tc.gather(ctx, "nice")
     tc.check(ctx, "nice", trecs, "C14_")
-    # the process's local zone is no input of the property: a slice of the same records is taken in a zone with DST
-    zrecs = tc.gather(ctx, "nice", tz="EST5EDT,M3.2.0,M11.1.0", scale=0.2)
-    tc.check(ctx, "nice", zrecs, "C14_", zone="US-Eastern-DST")
-    ctx.evaluations += len(zrecs)
+    # the process's local zone is no input of the property: slices of the same records are taken in a zone with DST and in
+    # one whose offset is not a whole number of hours
+    for zname, tz, sc in (("US-Eastern-DST", "EST5EDT,M3.2.0,M11.1.0", 0.2), ("India+5:30", "IST-5:30", 0.1)):
+        zrecs = tc.gather(ctx, "nice", tz=tz, scale=sc)
+        tc.check(ctx, "nice", zrecs, "C14_", zone=zname)
+        ctx.evaluations += len(zrecs)
     # conformance of the operational nice model with the observed niced domains: drift is reported, never a verdict
     sub = [r for r in trecs if not r["err"]][::(3 if quick else 1)]
     drift, st = core.validate_records("TimeDrift", "TimeDrift.cfg", sub, per_shard=800, heap="3g")
